@@ -18,7 +18,7 @@ RES = ["thread", "async-thread", "main-thread"]
 # generator
 # ------------------------------------------------------------------------------------------------
 def gen_shape(rng, nmin=2, nmax=9, mix=None, pri="small", seq_rate=0.2, flags=True, reuse=True, mc_max=4,
-              kinds=True, max_deps=3, setup_rate=0.0, tag_rate=0.0):
+              kinds=True, max_deps=3, setup_rate=0.0, tag_rate=0.0, const_objects=0.06):
     n = rng.randint(nmin, nmax)
     mix = mix or rng.choice(["thread", "async", "mixed", "mixed_main", "thread_main", "async_main"])
     fns = {}
@@ -75,6 +75,8 @@ def gen_shape(rng, nmin=2, nmax=9, mix=None, pri="small", seq_rate=0.2, flags=Tr
             nd["args"].append(["p", "x"])
         if rng.random() < 0.15:
             nd["args"].append(["c", rng.choice([0, 1, "s", None])])
+        if kinds and rng.random() < const_objects:
+            nd["args"].append(["g", rng.choice(["OPQ_A", "OPQ_B"])])  # a constant OBJECT (identity-sensitive, cannot be copied)
         if nd["active"] is not None:
             flagged.add(i)
         nodes.append(nd)
@@ -334,6 +336,9 @@ def check_all(case, props=None):
                 if not (d in v.xexit and v.xexit[d] < v.xenter[x]):
                     add("C02", "started_before_dependency_finished", node=x, dep=d, kind=kind,
                         dep_exit=v.xexit.get(d), node_enter=v.xenter[x])
+                elif d in v.xfail:
+                    # the dependency RAISED: it never returned, nothing may be entered on its behalf
+                    add("C02", "started_although_dependency_raised", node=x, dep=d, kind=kind)
             elif d in v.xenter and v.xenter[d] > v.xenter[x] and j in v.sel and j not in v.pre:
                 pass
         if v.ref is not None and x in v.fargs and i in v.ref.args and not faults:
@@ -698,6 +703,8 @@ def check_generic(log):
                     st["generic_c02_edges"] += 1
                     if not (d in xexit and xexit[d] < xenter[x]):
                         add("C02", "started_before_dependency_finished", node=x, dep=d, dep_enter=xenter[d], dep_exit=xexit.get(d), node_enter=xenter[x])
+                    elif d in failed:
+                        add("C02", "started_although_dependency_raised", node=x, dep=d)
             res = e.get("res")
             if res is None:
                 continue
